@@ -28,3 +28,14 @@ func Table(experimental bool) map[string]Entry {
 
 // IsArityError reports whether err is the library's wrong-arity sentinel.
 func IsArityError(err error) bool { return errors.Is(err, impl.ErrWrongArity) }
+
+// ExperimentalRaw returns the experimental functions as the library declares them, added to an EMPTY table
+// (so that no entry of the default table can stand in their way); nil when this view is not available.
+func ExperimentalRaw() map[string]Entry {
+	t := funcs.AddExperimentalFuncs(funcs.FunctionTable{})
+	out := map[string]Entry{}
+	for k, fn := range t {
+		out[k] = Entry{Min: fn.MinArity, Max: fn.MaxArity, Impl: lib.FuncName(fn.Func)}
+	}
+	return out
+}
